@@ -161,6 +161,25 @@ func serialOf(hc hashChain, in ssa.Value) hashChain {
 		}
 		hc.Serial = fv.Name()
 		hc.Cert = base
+	case *ssa.Phi:
+		/* The certificate's own SPKI bytes when it has them, else the
+		re-encoding of its key: the same DER either way. */
+		var first hashChain
+		for k, e := range x.Edges {
+			h := serialOf(hashChain{Hash: hc.Hash, Encoding: hc.Encoding}, e)
+			if "" != h.Err || !okSerial(h.Serial) {
+				hc.Err = "hash input not recognised (a choice one of whose sides is not the certificate's SubjectPublicKeyInfo)"
+				return hc
+			}
+			if 0 == k {
+				first = h
+			} else if resolveCell(h.Cert) != resolveCell(first.Cert) {
+				hc.Err = "hash input chosen from two different certificates"
+				return hc
+			}
+		}
+		hc.Serial = "crypto/x509.MarshalPKIXPublicKey(PublicKey)"
+		hc.Cert = first.Cert
 	default:
 		hc.Err = fmt.Sprintf("hash input not recognised (%T)", x)
 	}
@@ -329,6 +348,43 @@ func checkC05(p *Prog, r *Report) {
 						}
 					}
 				}
+			}
+			if !okk {
+				/* cert := tls.Certificate{Certificate: [][]byte{der},
+				Leaf: leaf} with leaf = ParseCertificate(der): the same
+				der value is this certificate's only block. */
+				eachInstr(fn, func(j ssa.Instruction) {
+					st2, ok := j.(*ssa.Store)
+					if !ok {
+						return
+					}
+					f2, b2 := fieldAddrOf(st2.Addr)
+					if nil == f2 || "Certificate" != f2.Name() || b2 != base {
+						return
+					}
+					sl, ok := st2.Val.(*ssa.Slice)
+					if !ok {
+						return
+					}
+					al, ok := sl.X.(*ssa.Alloc)
+					if !ok {
+						return
+					}
+					for _, ref := range *al.Referrers() {
+						ia, ok := ref.(*ssa.IndexAddr)
+						if !ok {
+							continue
+						}
+						if k, isK := constInt(ia.Index); !isK || 0 != k {
+							continue
+						}
+						for _, r2 := range *ia.Referrers() {
+							if st3, ok := r2.(*ssa.Store); ok && st3.Addr == ssa.Value(ia) && resolveCell(st3.Val) == resolveCell(arg) {
+								okk = true
+							}
+						}
+					}
+				})
 			}
 			if okk {
 				rLeaf.OK(c, posOf(st), "Leaf = ParseCertificate(cert.Certificate[0]) of the same certificate")
